@@ -326,12 +326,11 @@ func genErrorScenario(c *mon.Case, sc *scenario, n int, kind string, dom []*gen.
 		}
 		sc.items = mkItems(r, n, md, "")
 		// make sure both types occur
-		sc.items[r.Intn(n)] = item{m: md[len(md)-1], key: md[len(md)-1], v: md[len(md)-1].Value()}
-		j := r.Intn(n)
-		for sc.items[j].m == md[len(md)-1] {
-			j = (j + 1) % n
-		}
-		sc.items[j] = item{m: dom[0], key: dom[0], v: dom[0].Value()}
+		p1 := r.Intn(n)
+		p2 := (p1 + 1 + r.Intn(n-1)) % n
+		o := md[len(md)-1]
+		sc.items[p1] = item{m: o, key: o, v: o.Value()}
+		sc.items[p2] = item{m: dom[0], key: dom[0], v: dom[0].Value()}
 		sc.wantErr = "must be comparable values"
 	case 1: // two different maps
 		sc.name = "err-uncomparable-maps"
